@@ -1,11 +1,14 @@
 #!/bin/bash
 # seedrun.sh <patch.diff> <check-id>...  — apply the patch to /repo, run the quick checks, undo it.
+# SEED_REPO=<worktree>: use a scratch worktree of /repo instead of /repo itself (e.g. while another job uses /repo).
 PATCH=$(readlink -f $1); shift
+R=${SEED_REPO:-/repo}
+export VERIF_REPO=$R
 cd /verif
-git -C /repo apply $PATCH || { echo "patch does not apply"; exit 2; }
+git -C $R apply $PATCH || { echo "patch does not apply"; exit 2; }
 for id in "$@"; do
   VERIF_SHRINK_CALLS=${VERIF_SHRINK_CALLS:-0} ./check $id --tier quick 2>&1 | grep -E "^\[|VIOLATION|signature|HARNESS" | cut -c1-260 | head -8
 done
-git -C /repo checkout -- .
-git -C /repo status --short | head -3
+git -C $R checkout -- .
+git -C $R status --short | head -3
 git -C /verif checkout -- evidence 2>/dev/null   # evidence written against a patched tree is not evidence
